@@ -45,18 +45,33 @@ def run(chk, repo):
     chk.rule('C04.a', 'R-GUARD: emission dominated by the validity filter', 5)
     drv = repo.func('cli.call_variant_peptide:call_variant_peptide')
     chk.uses(drv)
-    cfg = CFG(drv.node)
-    adds = [c for c in G.find_calls(drv.node, 'add_peptide') if unparse(c.func.value) == 'peptide_table']
+    ndrv = sem.nf(repo, drv)
+    chains_d = sem.block_chains(ndrv)
+    add_sites = sem.facts_where(ndrv, lambda st: sem.own_stmt(st) and any(unparse(c.func.value) == 'peptide_table' for c in sem.calls_in_stmt(st, 'add_peptide')))
+    adds = [c for st, _fx in add_sites for c in sem.calls_in_stmt(st, 'add_peptide') if unparse(c.func.value) == 'peptide_table']
     chk.call_sites += len(adds)
-    for c in adds:
-        site = cfg.node_for(repo.enclosing_stmt(c))
-        fx = G.facts_at(cfg, site)
-        ok = fx.get('is_valid') is True
-        iv = G.resolve_local(drv.node, 'is_valid')
-        ok = ok and iv is not None and call_name(iv) == 'is_valid' and unparse(kwarg(iv, 'seq')) == unparse(c.args[0]) and \
-            unparse(kwarg(iv, 'canonical_peptides')) == 'ref.canonical_peptides' and unparse(kwarg(iv, 'cleavage_params')) == 'caller.cleavage_params'
+    for st, fx in add_sites:
+        c = [c for c in sem.calls_in_stmt(st, 'add_peptide') if unparse(c.func.value) == 'peptide_table'][0]
+        seq_t = unparse(sem.expand_names(ndrv, st, c.args[0], chains=chains_d)) if c.args else None
+        ok = False
+        lits = dict(fx.d) if fx is not None else {}
+        if fx is not None:
+            for nm_, dx in fx.defs.items():
+                if lits.get(nm_) is True:
+                    for a_, p_ in (sem.conj_literals(dx, True) or set()):
+                        lits.setdefault(a_, p_)
+        for a_, p_ in lits.items():
+            if p_ is True and a_.startswith('peptide_table.is_valid('):
+                try:
+                    ce = ast.parse(a_, mode='eval').body
+                except SyntaxError:
+                    continue
+                kv = {k.arg: unparse(sem.expand_names(ndrv, st, k.value, chains=chains_d)) for k in ce.keywords}
+                if kv.get('seq') == seq_t and kv.get('canonical_peptides') in ('ref.canonical_peptides', 'caller.reference_data.canonical_peptides') \
+                        and kv.get('cleavage_params') == 'caller.cleavage_params':
+                    ok = True
         chk.ob('C04.a', 'callVariant: peptide_table.add_peptide dominated by is_valid(seq=<same peptide>, canonical pool, cleavage params)',
-               repo.loc(drv, c), ok, 'a peptide can enter the peptide table without passing is_valid for the same sequence against the canonical pool and the limits',
+               drv.where, ok or fx is None, 'a peptide can enter the peptide table without passing is_valid for the same sequence against the canonical pool and the limits',
                key=drv.qual + '::table-add-guard', fn=drv.qual)
     chk.ob('C04.a', 'callVariant: single table insertion site', drv.where, len(adds) == 1, f"{len(adds)} insertion sites", key=drv.qual + '::table-add-count', fn=drv.qual)
     wf = [c for c in G.find_calls(drv.node, 'write_fasta')]
